@@ -137,12 +137,47 @@ def run_pair(cases_text, tag, timeout=600, mem_kb=8000000, sides=("impl", "model
     def one(name, exe):
         if name not in sides:
             return name, (0, "", "")
-        cmd = "ulimit -v %d; ulimit -s unlimited 2>/dev/null; exec %s < %s" % (mem_kb, exe, cf)
-        try:
-            p = subprocess.run(["bash", "-c", cmd], stdout=subprocess.PIPE, stderr=subprocess.PIPE, timeout=timeout)
-            return name, (p.returncode, p.stdout.decode("utf-8", "replace"), p.stderr.decode("utf-8", "replace")[-2000:])
-        except subprocess.TimeoutExpired as e:
-            return name, (-9, (e.stdout or b"").decode("utf-8", "replace"), "TIMEOUT")
+        # the output goes to a file of bounded size: an operation that never stops delivering rows (a cycle the depth
+        # limit misses) must end as "died in case X" (SIGXFSZ / timeout), not as an out-of-memory kill of the check itself
+        outf = os.path.join(WORK, "%s.%s.out" % (tag, name))
+        cap_kb = int(os.environ.get("VERIF_OUT_CAP_KB", "250000"))
+        cmd = "ulimit -v %d; ulimit -s unlimited 2>/dev/null; exec %s < %s > %s" % (mem_kb, exe, cf, outf)
+        def slurp():
+            try:
+                with open(outf, "rb") as f:
+                    data = f.read(cap_kb * 1024)
+            except OSError:
+                data = b""
+            try:
+                os.remove(outf)
+            except OSError:
+                pass
+            return data.decode("utf-8", "replace")
+        p = subprocess.Popen(["bash", "-c", cmd], stdout=subprocess.DEVNULL, stderr=subprocess.PIPE)
+        import threading
+        errbuf = []
+        th = threading.Thread(target=lambda: errbuf.append(p.stderr.read()), daemon=True)
+        th.start()
+        deadline, why = time.time() + timeout, None
+        while p.poll() is None:
+            time.sleep(0.05 if time.time() - deadline + timeout < 2 else 0.5)
+            if time.time() > deadline:
+                why = "TIMEOUT"
+            else:
+                try:
+                    if os.path.getsize(outf) > cap_kb * 1024:
+                        why = "OUTPUT LIMIT (%d kB) exceeded: the operation does not stop delivering" % cap_kb
+                except OSError:
+                    pass
+            if why:
+                p.kill()
+                p.wait()
+                break
+        th.join(timeout=5)
+        err = (errbuf[0] if errbuf else b"").decode("utf-8", "replace")[-2000:]
+        if why:
+            return name, (-9, slurp(), (err + "\n" + why).strip())
+        return name, (p.returncode, slurp(), err)
 
     # the two sides are independent processes reading the same command file: run them side by side
     from concurrent.futures import ThreadPoolExecutor
